@@ -18,6 +18,14 @@ from .hilbert_ref import hilbert3d
 
 VALBASE = 2 ** 22          # value of variable iv in cell gid: (iv + 1) * VALBASE + gid
 GHOST_TAG = 0.5            # ghost copies carry value + 0.5 (true values are integers)
+BOUND_TAG = 0.25           # copies in boundary regions carry value + 0.25
+
+
+def value_sign(name, gid):
+    """Vector-like quantities are stored with either sign (a third of the cells negative); scalars stay positive."""
+    if family_of(name) in ("velocity", "momentum", "B", "acceleration") and gid % 3 == 1:
+        return -1.0
+    return 1.0
 KIND_IV0 = {"hydro": 0, "grav": 40, "rt": 48}
 
 
@@ -181,7 +189,9 @@ class World:
         return off + lin
 
     def value(self, kind, iv, level, cidx):
-        return float((KIND_IV0[kind] + iv + 1) * VALBASE + self.gid(level, cidx))
+        gid = self.gid(level, cidx)
+        name = {"hydro": self.hydro_vars, "grav": self.grav_vars, "rt": self.rt_vars}[kind][iv]
+        return value_sign(name, gid) * float((KIND_IV0[kind] + iv + 1) * VALBASE + gid)
 
     def cells(self):
         """Every cell of the tree (leaf or refined): dict rows."""
@@ -248,7 +258,7 @@ class World:
         cidx = tuple(2 * o.idx[d] + self.offs[ind][d] for d in range(self.ndim))
         v = self.value(kind, iv, o.level, cidx)
         if dom > self.ncpu:
-            return -v
+            return v + BOUND_TAG
         return v + (GHOST_TAG if ghost else 0.0)
 
     def write(self, path):
